@@ -831,3 +831,30 @@ func (ts *Terms) ResetEmitted() {
 }
 
 func (ts *Terms) Size() int { return len(ts.nodes) }
+
+// Show renders a term (to a limited depth) for diagnostics.
+func (ts *Terms) Show(t *Term, depth int) string {
+	switch t.Op {
+	case OpConst:
+		return fmt.Sprint(t.C)
+	case OpVar:
+		return ts.Vars[t.C].Name
+	}
+	if depth == 0 {
+		return "..."
+	}
+	name := opSMT[t.Op]
+	switch t.Op {
+	case OpZExt:
+		name = "zext"
+	case OpSExt:
+		name = "sext"
+	case OpTrunc:
+		name = "trunc"
+	}
+	s := "(" + name
+	for i := uint8(0); i < t.NArg; i++ {
+		s += " " + ts.Show(t.Args[i], depth-1)
+	}
+	return s + ")"
+}
